@@ -306,6 +306,20 @@ func TestC09(t *testing.T) {
 		q := gen.RandomRefQuote(s, authLen, chainLen, extraLen)
 		m := q.ToProto()
 		want := q.Encode()
+		// an empty byte string may be held as nil or as an empty slice (protocol buffers do not distinguish them):
+		// as built, every empty one nil, every empty one non-nil, or the message as it comes back from the wire encoding
+		switch rep := rapid.SampledFrom([]string{"as-built", "nil-for-empty", "empty-for-nil", "through-wire"}).Draw(t, "representation"); rep {
+		case "nil-for-empty", "empty-for-nil":
+			setEmpties(m, rep == "nil-for-empty")
+			gen.Class("msg:" + rep)
+		case "through-wire":
+			b, err := proto.Marshal(m)
+			m2 := &pb.QuoteV4{}
+			if err == nil && proto.Unmarshal(b, m2) == nil {
+				m = m2
+			}
+			gen.Class("msg:through-wire")
+		}
 		// in half of the cases every byte string of the message is a sub-slice of ONE buffer with spare capacity behind
 		// it (what a zero-copy decoder hands out): serialising must not write behind any field
 		var arena, arenaBefore []byte
@@ -371,6 +385,40 @@ func TestC09(t *testing.T) {
 		gen.Class(fmt.Sprintf("msg:auth>%d", bucket(authLen)))
 		gen.Sample("message", map[string]any{"authLen": authLen, "chainLen": chainLen, "extraLen": extraLen, "len": len(want)})
 	})
+}
+
+// setEmpties makes every zero-length byte string of the message nil (toNil) or empty-but-non-nil.
+func setEmpties(m any, toNil bool) {
+	var walk func(v reflect.Value)
+	walk = func(v reflect.Value) {
+		switch v.Kind() {
+		case reflect.Ptr:
+			if !v.IsNil() {
+				walk(v.Elem())
+			}
+		case reflect.Struct:
+			for i := 0; i < v.NumField(); i++ {
+				if v.Type().Field(i).PkgPath == "" {
+					walk(v.Field(i))
+				}
+			}
+		case reflect.Slice:
+			if v.Type().Elem().Kind() == reflect.Uint8 {
+				if v.CanSet() && v.Len() == 0 {
+					if toNil {
+						v.Set(reflect.Zero(v.Type()))
+					} else {
+						v.Set(reflect.ValueOf([]byte{}))
+					}
+				}
+				return
+			}
+			for i := 0; i < v.Len(); i++ {
+				walk(v.Index(i))
+			}
+		}
+	}
+	walk(reflect.ValueOf(m))
 }
 
 // arenaize re-homes every byte string of a message into one buffer, in field order, each as buf[off:off+len] so
